@@ -159,6 +159,9 @@ def k3_date_languages():
     out['queries'] = out['paths'] = len(q.log)
     out['cpu_s'] = round(q.total, 3)
     out['detail'] = q.log
+    if q.disagreements:
+        out['status'] = 'harness_error'
+        out['message'] = 'z3 and cvc5 disagree on: %s' % q.disagreements
     out['functions'] = ['tdda/constraints/base.py:get_date (patterns RD, RDT, RDTM read from the live module)']
     return out
 
